@@ -218,3 +218,152 @@ _setup_contracts = setup
 def setup(E):  # noqa: F811
     _setup_contracts(E)
     _scopes(E)
+
+
+def _more_scopes(E):
+    import itertools
+    from pyvc.driver import Scope, Standin
+    from pyvc import native
+    H = E._dp_helpers
+
+    def gen_combine(tier, rng):
+        cands = [(v, t) for v in (0, 1, 2) for t in (None, "a", "b")]
+        n = 2 if tier != "thorough" else 3
+        combs = ["add", "mul-tag", "drop-left", "left-only-tagged"]
+        for merge in ("MIN", "MAX"):
+            for ret in ("NONE", "ANY", "ALL"):
+                for h1 in itertools.product(cands if tier == "thorough" else cands[1::2] + cands[:1], repeat=n):
+                    for h2 in itertools.product(cands[::2], repeat=n - 1):
+                        for comb in combs:
+                            yield {"merge": merge, "ret": ret, "h1": [list(map(list, h1))], "h2": [list(map(list, h2))], "comb": comb}
+
+    def combinators(mod):
+        C = mod.Candidate
+        return {
+            "add": lambda l, r: C(l.value + r.value, (l.info, r.info)),
+            "mul-tag": lambda l, r: C(l.value * 2 + r.value, l.info + r.info),
+            "drop-left": lambda l, r: C(r.value, r.info),
+            "left-only-tagged": lambda l, r: C(l.value - r.value, (l.info,) if l.info == "a" else None),
+        }
+
+    def build_combine(recipe, src_root):
+        mod = native.import_real(M, src_root)
+        e1 = H["mk_entry"](mod, recipe["merge"], recipe["ret"], recipe["h1"])
+        e2 = H["mk_entry"](mod, recipe["merge"], recipe["ret"], recipe["h2"])
+        comb = combinators(mod)[recipe["comb"]]
+        tags = {"a", "b"} | {comb(mod.Candidate(0, x), mod.Candidate(0, y)).info for x in "ab" for y in "ab"}
+        tags.discard(None)
+        return (lambda self, other, combinator: self.combine(other, combinator)), {"self": e1, "other": e2, "combinator": comb}, H["universe"](tags=sorted(tags, key=repr))
+
+    E.registry.scopes[f"{M}:Entry.combine"] = Scope(
+        gen_combine, build_combine,
+        describe="pairs of entries built from all histories of length 2 x 1 (3 x 2 thorough) over {0,1,2} x {None,a,b}, 2x3 policies, four combinators (tagging all / some / none of the pairs)")
+
+    def gen_iter(tier, rng):
+        cands = [(v, t) for v in (0, 1) for t in (None, "a", "b", "c")]
+        for ret in ("NONE", "ANY", "ALL"):
+            for h in itertools.product(cands, repeat=3):
+                yield {"merge": "MIN", "ret": ret, "history": [list(map(list, h))]}
+
+    def build_iter(recipe, src_root):
+        mod = native.import_real(M, src_root)
+        e = H["mk_entry"](mod, recipe["merge"], recipe["ret"], recipe["history"])
+        return (lambda self: list(iter(self))), {"self": e}, H["universe"]()
+
+    E.registry.scopes[f"{M}:Entry.__iter__"] = Scope(gen_iter, build_iter, describe="entries after all histories of length 3 over {0,1} x {None,a,b,c}")
+
+    # ---- Table / TableProxy / EntryProxy: bounded stand-in against a reference model (rank 1-3)
+    def table_standin(tier, rng, src_root):
+        import infinity
+        mod = native.import_real(M, src_root)
+        inf = infinity.inf
+        n_hist = 150 if tier != "thorough" else 2500
+        evals = 0
+        distinct = set()
+        viol = []
+        samples = []
+        for it in range(n_hist):
+            rank = 1 + it % 3
+            merge = rng.choice(["MIN", "MAX"])
+            ret = rng.choice(["NONE", "ANY", "ALL"])
+            ops = []
+            for _ in range(rng.randrange(1, 7)):
+                key = tuple(rng.choice("xyz") for _ in range(rank))
+                kind = rng.choice(["update", "set", "read", "combine", "keys"])
+                cands = [[rng.choice([0, 1, 2, "inf"]), rng.choice([None, "a", "b"])] for _ in range(rng.randrange(0, 3))]
+                ops.append([kind, list(key), cands])
+            recipe = {"rank": rank, "merge": merge, "ret": ret, "ops": ops}
+            what = table_replay(recipe, src_root)
+            evals += 1
+            distinct.add(repr(recipe))
+            if len(samples) < 2:
+                samples.append(recipe)
+            if what:
+                viol.append((what, recipe))
+                break
+        return dict(evaluations=evals, distinct_nontrivial=len(distinct), violations=viol, samples=samples,
+                    rule="random operation histories (update / __setitem__ / reads / combine / keys) on tables of rank 1-3 compared with a reference model: unwritten cell reads (worst, {}), update creates the cell iff some candidate is finite and then behaves like Entry.update")
+
+    def table_replay(recipe, src_root):
+        import infinity
+        mod = native.import_real(M, src_root)
+        inf = infinity.inf
+        rank, merge, ret = recipe["rank"], recipe["merge"], recipe["ret"]
+        mp, rp = getattr(mod.MergePolicy, merge), getattr(mod.RetentionPolicy, ret)
+        worst = inf if merge == "MIN" else -inf
+        table = mod.Table([mod.DictDimension()] * rank, mp, rp)
+        model = {}
+
+        def cell(key):
+            x = table
+            for k in key:
+                x = x[k]
+            return x
+
+        for kind, key, cands in recipe["ops"]:
+            key = tuple(key)
+            cs = [mod.Candidate(H["val"](v), t) for v, t in cands]
+            if kind in ("update", "set"):
+                if kind == "set":
+                    cs = cs[:1] or [mod.Candidate(1, "a")]
+                    x = table
+                    for k in key[:-1]:
+                        x = x[k]
+                    x[key[-1]] = cs[0]
+                else:
+                    cell(key).update(*cs)
+                if any(not infinity.is_infinite(c.value) for c in cs):
+                    ref = model.setdefault(key, mod.Entry(mp, rp))
+                    ref.update(*cs)
+            elif kind == "combine":
+                other = mod.Entry(mp, rp)
+                other.update(mod.Candidate(1, "p"), mod.Candidate(1, "q"))
+                got = cell(key).combine(other, lambda l, r: mod.Candidate(l.value + r.value, (l.info, r.info)))
+                exp = (model[key] if key in model else mod.Entry(mp, rp)).combine(other, lambda l, r: mod.Candidate(l.value + r.value, (l.info, r.info)))
+                if got.value() != exp.value() or set(got.infos()) != set(exp.infos()):
+                    return f"combine on cell {key}: got ({got.value()}, {set(got.infos())}) expected ({exp.value()}, {set(exp.infos())})"
+            elif kind == "keys":
+                ks = set(table.keys())
+                need = {k[0] for k in model}
+                if not need <= ks:
+                    return f"keys() misses written first-level keys {need - ks}"
+            for k2 in list(model) + [key]:
+                c = cell(k2)
+                exp = model.get(k2)
+                ev, ei = (exp.value(), set(exp.infos())) if exp is not None else (worst, set())
+                if c.value() != ev or set(c.infos()) != ei or c.is_infinite() != infinity.is_infinite(ev) or len(c) != len(ei) or {x.info for x in c} != ei:
+                    return f"cell {k2} reads ({c.value()}, {set(c.infos())}) expected ({ev}, {ei})"
+        return None
+
+    sd = Standin("dynamic_programming:Table-proxies", table_standin,
+                 describe="150 (2500 thorough) random histories of <= 6 operations on Table of rank 1-3 over keys {x,y,z}; bounded, not a proof")
+    sd.replay = table_replay
+    E._dp_table_standin = sd
+
+
+_setup2 = setup
+
+
+def setup(E):  # noqa: F811
+    _setup2(E)
+    _more_scopes(E)
